@@ -4,6 +4,7 @@ import ChythonModel.Proofs.C09SearchP
 import ChythonModel.Proofs.C09SearchR
 import ChythonModel.Proofs.C09Layout
 import ChythonModel.Proofs.C09Faithful
+import ChythonModel.Proofs.C09Top
 /-!
 # C09 — compiled (bit-mask) matcher ≡ reference matcher: property theorems
 
@@ -260,27 +261,29 @@ theorem compiled_search_on_encoder_outputs (q : LQuery) (m : LMol) (cl : Iso.Clo
   have hF' := encoders_faithful q m cl lq cm cq hm hq hme hqe hF hcl hcomp hpairs
   exact ⟨hF', getMappingC_eq_R _ cm cq hF' scope⟩
 
-/-- well-formed inputs inside the documented domain, for the end-to-end statement -/
-structure SearchDomain (q : LQuery) (m : LMol) : Prop where
-  qwf : q.graph.WF = true
-  mwf : m.graph.WF = true
-  qkeys : q.adj.map (·.1) = q.atoms.map (·.1)
-  mkeys : m.adj.map (·.1) = m.ids
-  small : m.atoms.length < two32 ∧ q.atoms.length < two32 ∧ (∀ p ∈ m.atoms, p.1 < two32) ∧ (∀ p ∈ q.atoms, p.1 < two32)
-  atoms : ∀ p ∈ m.atoms, ∃ mdl, mdlOf p.2.z = some mdl ∧ ADom mdl p.2
-  qatoms : ∀ p ∈ q.atoms, QDom p.2
-  bonds : (∀ r ∈ m.adj, ∀ kb ∈ r.2, OrderOk kb.2.order) ∧ (∀ r ∈ q.adj, ∀ kb ∈ r.2, ∀ x ∈ kb.2.orders, OrderOk x)
-  pairs : ∀ p ∈ q.atoms, ∀ r ∈ m.atoms, NoHeavyClash p.2 r.2 ∧ HKnown p.2 r.2
+/-- **one component**: the compiled matcher run on the encoders' outputs yields exactly — same dicts, same order — what the reference
+    `_get_mapping` yields for that component and candidate target component (`Ctx`: `MolOK`, `QueryOK`, both encoders succeeded, an
+    accepted linearisation with distinct fronts and closure keys) -/
+theorem component_search_eq {q : LQuery} {m : LMol} {cl : Iso.Closures} {lq : List Iso.Step} {cm : CMol} {cq : CQuery}
+    (c : Ctx q m cl lq cm cq) (cand : List Nat)
+    (hpairs : ∀ p ∈ q.atoms, ∀ r ∈ m.atoms, NoHeavyClash p.2 r.2 ∧ HKnown p.2 r.2) :
+    getMappingC cm cq (scopeArray m cand) = Iso.getMapping (envOfP q m cl lq cand) :=
+  getMappingC_eq_python c cand hpairs
 
-/-- the search equivalence the property asks for, end to end (`cythonPath = pythonPath` for every well-formed query / molecule in
-    the documented domain). **Open obligation**: proved are its three load-bearing parts (`compiled_loop_is_generic_search`,
-    `reference_loop_is_generic_search`, `compiled_search_eq_reference_search` with the local test equalities) and the layout of the
-    structure buffer; not proved are (i) that `encComponent` establishes `Faithful` (closure rows, `back` indices), (ii) the renaming
-    of array indices to atom numbers between `envR` and `envP`. Both are exercised on every `gm` / `es` / `ec` correspondence case
-    (the model's two paths are compared with each other and with the two real paths). -/
-def CythonSearchEqPythonSearch : Prop :=
-  ∀ (q : LQuery) (m : LMol) (tComps : List (List Nat)) (scope : Option (List Nat)) (autoF : Bool),
-    SearchDomain q m → cythonPath q m tComps scope autoF = pythonPath q m tComps scope autoF
+/-- **`cython_search_eq_python_search`** — the property, end to end, on the model: for every non-empty well-formed query (`QueryOK`,
+    `q.graph.WF`) and molecule (`MolOK`) whose (query atom, atom) pairs lie in the documented domain, every list of target components,
+    every scope and both `automorphism_filter` settings: whenever compiling the query and the structure does not raise,
+    `query.get_mapping(mol)` with the extension installed returns exactly what `query.get_mapping(mol, _cython=False)` returns —
+    the same mappings in the same order (so in particular the same set). `hcl`: the closures dict has distinct keys
+    (`compile_closure_keys_nodup` below discharges it for C07's `compileQuery`). -/
+theorem cython_search_eq_python_search (q : LQuery) (m : LMol) (tComps : List (List Nat)) (scope : Option (List Nat)) (autoF : Bool)
+    (hm : MolOK m) (hq : QueryOK q) (hqwf : q.graph.WF = true) (hqne : q.atoms ≠ [])
+    (hpairs : ∀ p ∈ q.atoms, ∀ r ∈ m.atoms, NoHeavyClash p.2 r.2 ∧ HKnown p.2 r.2)
+    (comps : List (List Iso.Step)) (cl : Iso.Closures) (hcq : Iso.compileQuery q.graph = some (comps, cl))
+    (hcl : (cl.map (·.1)).Nodup)
+    (cqs : List CQuery) (henq : encQuery q comps cl = .ok cqs) (cm : CMol) (hems : encStructure m = .ok cm) :
+    cythonPath q m tComps scope autoF = pythonPath q m tComps scope autoF :=
+  cythonPath_eq_pythonPath q m tComps scope autoF hm hq hqwf hqne hpairs comps cl hcq hcl cqs henq cm hems
 
 /-- the full-strength statement the property text asks for ("every element 1–118", any hydrogen state, any `h` value the query API
     accepts, any ring size): **false** for the current code — `Findings/C09.lean` proves `¬ MaskEqPyEqFull` from four witnesses
